@@ -56,10 +56,6 @@ where
                 config.workdir()
             )
         });
-        if let Type::TextResource | Type::AnnotationDataSet = Self::typeinfo() {
-            //introspection to detect whether type can do @include
-            config.set_serialize_mode(SerializeMode::NoInclude); //set standoff mode, what we're about the write is the standoff file
-        }
         let compact = match config.dataformat {
             DataFormat::Json { compact } => compact,
             _ => {
@@ -75,8 +71,13 @@ where
                 }
             }
         };
-        let writer = open_file_writer(filename, &config)?;
-        let result = self.to_json_writer(writer, compact);
+        if let Type::TextResource | Type::AnnotationDataSet = Self::typeinfo() {
+            //introspection to detect whether type can do @include
+            config.set_serialize_mode(SerializeMode::NoInclude); //set standoff mode, what we're about the write is the standoff file
+        }
+        //no early return between here and the reset below: the mode is shared with the whole store
+        let result = open_file_writer(filename, &config)
+            .and_then(|writer| self.to_json_writer(writer, compact));
         if let Type::TextResource | Type::AnnotationDataSet = Self::typeinfo() {
             //introspection to detect whether type can do @include
             config.set_serialize_mode(SerializeMode::AllowInclude); //set standoff mode, what we're about the write is the standoff file
